@@ -1,0 +1,18 @@
+//go:build verif
+
+package funcutil
+
+// Contracts read by /verif/govc (comment-only; build tag `verif`).
+
+// Optional[T] is an interface with two value implementations (some / none); its
+// accessors are deterministic, side-effect-free functions of the receiver. Assumed of every implementation (listed as a
+// trusted assumption in the evidence), applied at interface-method call sites.
+//@ func Optional.ValueOr
+//@   property C12 C10
+//@   pure
+//@ func Optional.IsSome
+//@   property C12 C10
+//@   pure
+//@ func Optional.Value
+//@   property C12 C10
+//@   pure
